@@ -12,6 +12,29 @@ from the *physical description* of the source and receiver I generated
 factor i w mu, relative receivers are positioned relative to the source
 centre).  Nothing of ``emg3d._multiprocessing`` / ``Model.extract_1d`` /
 ``emg3d.maps`` is used by the oracle.
+
+Clauses: (1) data of all five extraction methods (random ellipse settings,
+merge flag) equal the reference for every triple with finite observation (all
+if there is none or only NaN); (2) ``extract_1d(return_imat=True)``: weights
+finite, >= 0, sum 1, and the extracted layering equals the table; (3) layered
+gradient summed per z-cell x dp equals the change of ``Simulation.misfit``
+under a uniform perturbation of that z-cell (fresh layered simulations).
+
+Input classes.  'regular' (75 %) plus five labelled classes (5 % each) that
+exercise one documented input form each and carry their own mechanism key *if
+and only if* the data equal the specific wrong alternative named by the key:
+  ptlen    TxElectricDipole((x,y,z,azm,elev), length=L != 1)
+           -> C19:point-format-dipole-length-ignored
+  magdip   TxMagneticDipole (loop, I^m = i w mu A I^e)
+           -> C19:magnetic-dipole-source-without-iwmu
+  relrec   Rx*Point(..., relative=True)
+           -> C19:relative-receiver-taken-as-absolute
+  dip2x3   TxElectricDipole([[x1,y1,z1],[x2,y2,z2]])
+           -> C19:dipole-2x3-format-rejected (ValueError out of compute())
+  mergem1  log10 mapping, bottom layer value exactly -1.0, merge=True
+           -> C19:merge-drops-bottom-layer-of-value-minus-one
+None of these forms occurs in the 'regular' class; any other disagreement in
+any class is keyed C19:data-differ-from-1d-reference etc.
 """
 import warnings
 import numpy as np
@@ -19,7 +42,7 @@ from vf import common, gen
 
 PROP = 'C19'
 NEEDS_JIT = False
-TIMEOUT = {'quick': 900, 'thorough': 3300}
+TIMEOUT = {'quick': 2400, 'thorough': 3400}
 RULE = ("seeded layer tables (1..8 z-cells, thorough to 14; isotropic / VTI; "
         "optional air top layer, mu_r, eps_r; six property mappings) put on "
         "stretched/jittered grids of 1..9 x 1..9 cells; 1-3 sources "
@@ -54,7 +77,13 @@ ASSUMPTIONS = [
 # 10**mean(log10) in the cylinder/prism average).  They perturb a datum by
 # (few 1e-16) x (log-sensitivity <= ~8 skin depths) of the *total* field at the
 # receiver, hence the error is measured against |ref| + FLOOR*|field vector|.
-# Calibrated on the pinned tree (seeds 0-3 quick + thorough): worst 2.3e-13.
+# TOL_DATA is a screening threshold (typical worst 1e-13..1e-12 on the pinned
+# tree; DESIGN: 1e-12, prototype 3e-16 for bit-identical input): a datum above
+# it is not yet a violation but is judged against the *measured* resolution of
+# the reference for that case (conditioning(): receivers in a very resistive
+# air layer make empymod's digital-filter output move by 1e-7 for a 1e-14
+# change of a layer parameter); ~1 % of the runs need that, they are counted
+# in 'runs_judged_at_reduced_resolution'.
 TOL_DATA = 1e-11
 FLOOR = 1e-2
 TOL_IMAT = 1e-12
@@ -244,9 +273,13 @@ def gen_case(seed, k, i, tier):
     rmax = 0.0
     for s in sources:
         for q in receivers:
-            p = (np.array(q['coords']) + np.array(s['center']) if q['relative']
-                 else np.array(q['coords']))
-            rmax = max(rmax, float(np.linalg.norm(p - np.array(s['center']))))
+            p = np.array(q['coords'])
+            sc = np.array(s['center'])
+            rmax = max(rmax, float(np.linalg.norm(p - sc)))
+            if q['relative']:
+                # (both readings of the coordinates stay well conditioned, so
+                # that a mismatch can be attributed)
+                rmax = max(rmax, float(np.linalg.norm(p)))
     fcap = (8.0/rmax)**2/(np.pi*MU0*sig_max*(3.0 if has_mu else 1.0))
     freqs = sorted({float(f'{min(10.0**r.uniform(-2, 1), fcap):.4g}')
                     for _ in range(nf)})
@@ -300,6 +333,8 @@ def gen_case(seed, k, i, tier):
     obsmode = ('none' if u < 0.35 else 'full' if u < 0.5 else
                'gaps' if u < 0.9 else 'allnan')
     obs = None
+    if obsmode == 'gaps' and ns*nr*len(freqs) == 1:
+        obsmode = 'full'        # a single datum cannot have a gap
     if obsmode != 'none':
         shape = (ns, nr, len(freqs))
         obs = {'fac_re': (1 + 0.25*r.standard_normal(shape)).tolist(),
@@ -590,7 +625,7 @@ def _brief(c):
 
 
 def classify_data_mismatch(c, table, d, want, merged, first_layer_dropped,
-                           allow):
+                           allow, cache):
     """Deterministic mechanism key of a data mismatch.
 
     A labelled input class gets its own key only if the data equal the
@@ -599,10 +634,16 @@ def classify_data_mismatch(c, table, d, want, merged, first_layer_dropped,
     hide another defect.
     """
     def close(**variant):
-        alt, nrm = ref_data(c, table, merged, **variant)
+        ck = ('alt', merged, tuple(sorted(variant.items())))
+        if ck not in cache:
+            alt, nrm = ref_data(c, table, merged, **variant)
+            # resolution of the alternative itself (its geometry differs)
+            res = conditioning(c, table, merged, alt, nrm, **variant)
+            cache[ck] = (alt, nrm, res)
+        alt, nrm, res = cache[ck]
         if not (np.all(np.isfinite(d[want])) and np.all(np.isfinite(alt))):
             return False
-        e = _err(d, alt, nrm) - allow
+        e = _err(d, alt, nrm) - np.maximum(allow, res)
         return bool(np.all(e[want] <= 1e-9))
 
     cls = c['cls']
@@ -623,7 +664,7 @@ def classify_data_mismatch(c, table, d, want, merged, first_layer_dropped,
     return 'C19:data-differ-from-1d-reference'
 
 
-def conditioning(c, table, merged, ref, nrm):
+def conditioning(c, table, merged, ref, nrm, **variant):
     """Resolution of the reference modeller for this case.
 
     50 x the largest change of a datum (same error measure as the check)
@@ -639,7 +680,7 @@ def conditioning(c, table, merged, ref, nrm):
             v = getattr(t2, name)
             if v is not None:
                 setattr(t2, name, v*(1 + 1e-14*r.choice([-1.0, 1.0], v.size)))
-        r2, _ = ref_data(c, t2, merged, with_norm=False)
+        r2, _ = ref_data(c, t2, merged, with_norm=False, **variant)
         ch = _err(r2, ref, nrm)
         out = np.maximum(out, np.where(np.isfinite(ch), ch, np.inf))
     return 50.0*out
@@ -719,7 +760,7 @@ def check_forward(rec, c, table, model, ref, nrm, ref_m, nrm_m, allow):
             if dropped is None:
                 dropped = first_layer_dropped(model, table)
             key = classify_data_mismatch(c, table, d, want, merged, dropped,
-                                         allow[merged])
+                                         allow[merged], allow)
             j = np.unravel_index(np.nanargmax(np.where(want, np.where(
                 np.isfinite(e), e, np.inf), -1.0)), e.shape)
             rec.violation(
@@ -778,19 +819,37 @@ def check_extract(rec, c, table, model):
                           f'imat shape {imat.shape}, min {imat.min()}, '
                           f'sum {imat.sum()!r}', {**info, 'imat': imat})
         rec.extra_add('imat_multi_cell', int(np.count_nonzero(imat) > 1))
-        # extracted layering against the table
+        # extracted layering against the table, as a piecewise-constant
+        # function of z: every returned layer must span whole z-cells of the
+        # grid and carry the table's parameters on each of them.  (merge=True
+        # is not required to merge *maximally*: unmerged equal layers describe
+        # the same layering; merge=False must return one layer per z-cell.)
         merged = bool(kw.get('merge', False))
         idx = table.merged_index() if merged else np.arange(table.p_h.size)
-        want_nodes = np.r_[nodes_full[idx], nodes_full[-1]]
+        nzc = table.p_h.size
+        zn = np.asarray(lay.grid.nodes_z, dtype=float)
+        ext = max(1.0, float(np.ptp(nodes_full)))
         bad = None
-        if lay.shape[2] != idx.size:
-            bad = (f'{lay.shape[2]} layers returned, table has {idx.size}'
-                   f' ({"merged" if merged else "one per z-cell"})')
+        cell0 = None
+        if lay.shape[2] < 1 or zn.size != lay.shape[2] + 1 or \
+                not np.all(np.isfinite(zn)):
+            bad = f'malformed layered grid: nodes_z {zn}'
+        elif not merged and lay.shape[2] != nzc:
+            bad = (f'{lay.shape[2]} layers returned without merge, the grid '
+                   f'has {nzc} z-cells')
         else:
-            zn = np.asarray(lay.grid.nodes_z)
-            dz = float(np.max(np.abs(zn - want_nodes)))
-            if not (dz <= 1e-9*max(1.0, float(np.ptp(nodes_full)))):
-                bad = f'interfaces differ by {dz:.3e} m'
+            pos = np.array([int(np.argmin(np.abs(nodes_full - z)))
+                            for z in zn])
+            dz = float(np.max(np.abs(nodes_full[pos] - zn)))
+            if not (dz <= 1e-9*ext):
+                bad = f'interfaces are not grid nodes (off by {dz:.3e} m)'
+            elif pos[0] != 0 or pos[-1] != nzc or np.any(np.diff(pos) < 1):
+                bad = (f'returned interfaces {zn} do not tile the column '
+                       f'{nodes_full[0]}..{nodes_full[-1]}')
+            else:
+                cell0 = pos[:-1]
+                ncell = np.diff(pos)
+        if bad is None:
             pairs = [('property_x', table.sig_h, True)]
             if table.vti:
                 pairs.append(('property_z', table.sig_v, True))
@@ -810,12 +869,17 @@ def check_extract(rec, c, table, model):
                 if not np.all(np.isfinite(got)):
                     worst = float('nan')
                     break
-                worst = max(worst, float(np.max(np.abs(got/tv[idx] - 1.0))))
+                full = np.repeat(got, ncell)        # back onto the z-cells
+                worst = max(worst, float(np.max(np.abs(full/tv - 1.0))))
             rec.margin('extracted_layer_rel_err', worst)
             if bad is None and not (worst <= TOL_PROP):
                 bad = f'layer parameters differ from the table by {worst:.3e}'
             if bad is None and lay.case != model.case:
                 bad = f'anisotropy case changed: {lay.case}'
+            if merged:
+                rec.extra_add('merge_calls')
+                rec.extra_add('merge_calls_maximally_merged',
+                              int(lay.shape[2] == idx.size))
         rec.event('extracted_layerings_compared')
         if bad:
             key = 'C19:extracted-layering-differs-from-table'
@@ -906,11 +970,18 @@ def check_gradient(rec, c, table, model, ref, nrm, obs, std, allow):
     if False not in allow:
         allow[False] = conditioning(c, table, False, ref, nrm)
         rec.event('conditioning_probes')
-    dd = (allow[False][fin]/5.0)*(np.abs(ref[fin]) + FLOOR*nrm[fin])
-    floor = 1e-10*abs(phi0) + float(np.sum(np.abs(ref[fin] - obs[fin])*dd/s2))
+    dsim = np.array(sim.data.synthetic.data)[fin]    # emg3d's own data
+    dd = (allow[False][fin]/5.0)*(np.abs(dsim) + np.abs(ref[fin]) +
+                                  FLOOR*nrm[fin])
+    floor = 1e-10*abs(phi0) + float(np.sum(np.abs(dsim - obs[fin])*dd/s2))
     if not (floor <= 0.1*S):
         rec.extra_add('gradients_judged_at_reduced_resolution')
-    err = (np.abs(pred - act) - floor)/(np.abs(act) + 0.05*S)
+    num = np.abs(pred - act) - floor
+    with np.errstate(invalid='ignore', divide='ignore'):
+        # (pred == act == 0 exactly, e.g. Hz of a vertical electric dipole as
+        # the only datum, is agreement; NaN stays NaN)
+        err = np.where(num <= 0, 0.0,
+                       num/np.maximum(np.abs(act) + 0.05*S, 1e-300))
     worst = float(np.max(err)) if np.all(np.isfinite(err)) else float('nan')
     worst = max(worst, 0.0) if worst == worst else worst
     rec.margin('gradient_rel_err_cond' if mapping == 'Conductivity'
@@ -998,6 +1069,16 @@ def finalize(merged, tier):
         if m not in ex.get('set:methods', []):
             merged['inconclusive'].append(
                 {'reason': f'method {m!r} never reached the oracle',
+                 'case': None})
+    for kind, name in (('source_kinds', 'TxElectricPoint:point5'),
+                       ('source_kinds', 'TxMagneticPoint:point5'),
+                       ('source_kinds', 'TxElectricDipole:flat'),
+                       ('source_kinds', 'TxElectricDipole:point5'),
+                       ('receiver_kinds', 'RxElectricPoint'),
+                       ('receiver_kinds', 'RxMagneticPoint')):
+        if name not in ex.get('set:' + kind, []):
+            merged['inconclusive'].append(
+                {'reason': f'{name!r} never reached the oracle',
                  'case': None})
     for o in ('none', 'full', 'gaps', 'allnan'):
         if o not in ex.get('set:obsmodes', []):
